@@ -493,17 +493,24 @@ def alt_sympy_seeds(seed: int, k: int) -> list:
 
 
 def rng_sensitive(base: dict, key: str, mini: "Minimiser", k: int = 6):
-    """Run `base` (a life) under its own and k other sympy seeds - same hash key, same
-    history.  Returns (True, [life_x, life_y]) with two lives that differ ONLY in the sympy
-    seed and disagree on `key`, or (False, None)."""
-    lives = [dict(base, life=0)] + [dict(base, life=j + 1, sympy_seed=sd)
-                                     for j, sd in enumerate(alt_sympy_seeds(base.get("sympy_seed", 0), k))]
+    """Run `base` (a life) twice under its own sympy seed and under k other sympy seeds -
+    same hash key, same history.  Returns
+      ("rng", [x, y])       two lives that differ ONLY in the sympy seed disagree on `key`
+                            while the two same-seed runs agree;
+      ("unstable", [x, y])  two runs of the IDENTICAL life disagree (something else varies
+                            from run to run: a path, a clock, an address) - never attributed
+                            to sympy;
+      (None, None)          stable."""
+    lives = [dict(base, life=0), dict(base, life=1)] + [dict(base, life=j + 2, sympy_seed=sd)
+                                                         for j, sd in enumerate(alt_sympy_seeds(base.get("sympy_seed", 0), k))]
     res = mini.run(lives)
     ds = [digest_of(r, key) for r in res]
-    for j in range(1, len(lives)):
+    if ds[0] is not None and ds[1] is not None and ds[0] != ds[1]:
+        return "unstable", [dict(lives[0], life=0), dict(lives[1], life=1)]
+    for j in range(2, len(lives)):
         if ds[0] is not None and ds[j] is not None and ds[j] != ds[0]:
-            return True, [dict(lives[0], life=0), dict(lives[j], life=1)]
-    return False, None
+            return "rng", [dict(lives[0], life=0), dict(lives[j], life=1)]
+    return None, None
 
 
 def attribute_and_minimise(v: dict, plans_by_life: dict, mini: Minimiser) -> dict:
@@ -521,7 +528,7 @@ def attribute_and_minimise(v: dict, plans_by_life: dict, mini: Minimiser) -> dic
     for base in (fa, fb):
         sens, pair = rng_sensitive(base, key, mini)
         if sens:
-            doc["kind"] = "sympy-rng"
+            doc["kind"] = "sympy-rng" if sens == "rng" else "rerun-differs"
             doc["lives"] = pair
             return doc
     # 2. hash key: fresh single-observation lives under the two hash keys, SAME sympy seed
@@ -540,7 +547,7 @@ def attribute_and_minimise(v: dict, plans_by_life: dict, mini: Minimiser) -> dic
     for base in (sub_life(pa, list(range(wa["i"] + 1)), 0), sub_life(pb, list(range(wb["i"] + 1)), 0)):
         sens, pair = rng_sensitive(base, key, mini, k=3)
         if sens:
-            doc["kind"] = "sympy-rng"
+            doc["kind"] = "sympy-rng" if sens == "rng" else "rerun-differs"
             doc["lives"] = pair
             return doc
     # 3. history: some life disagrees with its own fresh run under the same hash key and
@@ -556,7 +563,7 @@ def attribute_and_minimise(v: dict, plans_by_life: dict, mini: Minimiser) -> dic
             # the shortened history must not have turned into an RNG effect
             sens, pair = rng_sensitive(hist, key, mini)
             if sens:
-                doc["kind"] = "sympy-rng"
+                doc["kind"] = "sympy-rng" if sens == "rng" else "rerun-differs"
                 doc["lives"] = pair
                 return doc
             doc["kind"] = "history"
